@@ -412,6 +412,64 @@ def run_shard(spec, ctx):
             ctx.case(("optdep", first))
             if o.kind != "value" or log != want:
                 ctx.violation("C11:once-per-interpreter:dependency-of-a-failed-module", "%s -> %s %r, expected %r" % (src, o.kind, log, want), {"src": src})
+        # the module a require statement names is looked up each time the statement runs: one require site in a loop or
+        # a function body, given another module name (a string variable) each time, binds the module asked for, loads each
+        # module once and shares it
+        import itertools
+        import ckl.values as V
+        import ckl.functions
+        moddir = os.path.join(base, "byvar")
+        os.makedirs(moddir, exist_ok=True)
+        vnames = ["va_", "vb_", "vc_"]
+        for n in vnames:
+            with open(os.path.join(moddir, n + ".ckl"), "w") as f:
+                f.write("append(LOADLOG, '%s');\ndef tag = '%s';\ndef n = 0;\ndef bump() do n += 1; n end;\n" % (n, n))
+        forms = [("unqualified", "require m unqualified; append(acc, [tag, bump()])"), ("as", "require m as cur_; append(acc, [cur_->tag, cur_->bump()])"),
+                 ("import", "require m import [tag, bump]; append(acc, [tag, bump()])"), ("import-as", "require m import [tag as t_, bump as b_]; append(acc, [t_, b_()])")]
+        for L in range(1, 5):
+            for seq in itertools.product(vnames, repeat=L):
+                if L == 4 and r.random() < 0.5:
+                    continue
+                counts, want_acc, order = {}, [], []
+                for n in seq:
+                    counts[n] = counts.get(n, 0) + 1
+                    want_acc.append("['%s', %d]" % (n, counts[n]))
+                    if n not in order:
+                        order.append(n)
+                lst = "[" + ", ".join("'%s'" % n for n in seq) + "]"
+                for fname, body in forms:
+                    for shape, src in (("loop", "def acc = []; for m in %s do %s end; log('acc', acc); log('loadlog', LOADLOG)" % (lst, body)),
+                                       ("function", "def acc = []; def ld_(m) do %s end; for x_ in %s do ld_(x_) end; log('acc', acc); log('loadlog', LOADLOG)" % (body, lst))):
+                        o, log = run_program(moddir, src)
+                        ctx.count("require_by_variable_programs")
+                        ctx.case(("byvar", fname, shape, seq), nontrivial=len(set(seq)) > 1)
+                        want = [("acc", "[" + ", ".join(want_acc) + "]"), ("loadlog", "[" + ", ".join("'%s'" % n for n in order) + "]")]
+                        if o.kind != "value" or log != want:
+                            ctx.violation("C11:require-site-evaluated-again:%s:%s" % (fname, shape), "%s -> %s %r, expected %r" % (src, o.kind, log, want), {"src": src})
+        # one interpreter, called by the host with scopes of its own of every shape (none, a root, a child of that root, a
+        # grandchild, a second root): the module is loaded once and it is the same instance from everywhere
+        for order_ in itertools.permutations(range(5), 5):
+            if r.random() < 0.8:
+                continue
+            it, out = core.new_interpreter(secure=True, legacy=False)
+            mp = V.ValueList()
+            mp.addItem(V.ValueString(moddir))
+            it.base_environment.put("checkerlang_module_path", mp)
+            it.base_environment.put("LOADLOG", V.ValueList())
+            root = ckl.functions.Environment()
+            child = root.newEnv()
+            scopes = [None, root, child, child.newEnv(), ckl.functions.Environment()]
+            got = []
+            for step, si in enumerate(order_):
+                src = "require va_; [va_->bump(), LOADLOG]"
+                o = observe((lambda e: (lambda: it.interpret(src, "host") if e is None else it.interpret(src, "host", e)))(scopes[si]), 3000000)
+                got.append(str(o.value) if o.kind == "value" else o.kind)
+            ctx.count("host_scope_programs")
+            ctx.case(("host-scopes", order_), nontrivial=True)
+            want = ["[%d, ['va_']]" % (k + 1) for k in range(5)]
+            if got != want:
+                ctx.violation("C11:once-per-interpreter:host-scopes", "require va_; [va_->bump(), LOADLOG] from host scopes %r (0 none, 1 root, 2 child, 3 grandchild, 4 other root) -> %r, expected %r" % (
+                    list(order_), got, want), {"order": list(order_)})
         for ci in range(spec["n"]):
             moddir = os.path.join(base, "c%d" % ci)
             os.makedirs(moddir, exist_ok=True)
